@@ -7,6 +7,8 @@ Decided (structural, necessary conditions; DESIGN.md section 5 / C03):
   R-VAL   argument validation precedes every tree access and rejects with ERR_BAD_USAGE
   R-TAB   decision table of check_empty_scan_range == the documented table of kvs.h (finite enumeration)
   R-STG   (shared with C13) name-based overload resolves the storage first
+  R-NARROW (checks/keylen.py, shared with C18) endpoint / key lengths are compared at full width, never after an
+          unbounded conversion to the 8-bit key_length_type
   R-MAX   truncation: after every growth of the result list (a push, or a nested scan that received the list) the test
           `max_size != 0 && list.size() >= max_size` is evaluated before the list can grow again or the visit
           reports OK_SCAN_CONTINUE (a necessary condition of "truncated to the first max_size entries")
@@ -798,5 +800,7 @@ def run(S):
     rule_val(S)
     rule_tab(S)
     rule_max(S)
+    from checks import keylen
+    keylen.rule_narrow(S)
     from checks import C13
     C13.rule_stg(S, only=('yakushima::scan',))
